@@ -176,6 +176,11 @@ class InterpBase:
             seq = ListV(list(seq), kind="tuple")
         if isinstance(seq, DictV):
             return self.dict_get(fr, seq, i, raise_key=True)
+        if isinstance(seq, (Obj, RecV)) and isinstance(i, str):
+            # construct.Container: container["field"] is container.field
+            if i in seq.fields:
+                return seq.fields[i]
+            self.py_raise("KeyError")
         if isinstance(seq, NdV):
             return self.nd_index(seq, i)
         if is_z3(seq) and z3.is_string(seq) or isinstance(seq, str):
